@@ -459,6 +459,12 @@ func checkReturn(e *Engine, sp lexSpec, name string, st *State, ret []AbsVal, at
 			silentMid = !(st.dispLo == 0 && st.dispHi == 0) && !(st.atEOF && st.E == 0)
 		}
 		e.check(st, "R-ERRMOVE", key, pos, !silentMid, "the error token is returned after the cursor moved, without an error being recorded and not at end of input: the caller sees a bare error with Err() == nil/EOF in the middle of the data (e.g. the zero value of a failed table lookup)")
+		// the bare error token (no error recorded) is the end-of-input report: it may only be given at the end
+		// (decided for calls that start at a token boundary, i.e. up to and including the first error; after an
+		// error the selection may be non-empty and the recorded error is sticky, which the weakest entry state cannot correlate)
+		if boundary && st.dispLo == 0 && st.dispHi == 0 && st.errSet != 1 {
+			e.check(st, "R-ERRMOVE", key+" only at the end", pos, st.atEOF && st.E == 0, "the error token is returned without an error being recorded at a position that is not established to be the end of input (e.g. at an embedded NUL byte): the caller takes it for the end-of-input report and the rest of the data is never tokenised")
+		}
 		// R-ERRSTUCK
 		if st.errSet == 1 && !(st.atEOF && st.E == 0) {
 			skey := fmt.Sprintf("%s error %q", name, st.errMsg)
